@@ -406,7 +406,7 @@ class MultiServiceResponsePacket(SendUnitDataResponsePacket):
 
     def _parse_reply(self):
         super()._parse_reply()
-        if self.service_status not in (SUCCESS, EMBEDDED_SERVICE_ERROR):
+        if self.command_status != SUCCESS or self.service_status not in (SUCCESS, EMBEDDED_SERVICE_ERROR):
             # the packet itself was refused: whatever follows the status is not a list of service replies
             return
         try:
